@@ -19,7 +19,7 @@ import (
 func main() {
 	b := xlib.Parse("src/parse/asp/builtins.go")
 	in := xlib.Parse("src/parse/asp/interpreter.go")
-	out := xlib.NewOut("C18", b.Path, in.Path)
+	out := xlib.NewOut("C18", b.Path, in.Path, "src/parse/asp/objects.go", "src/parse/asp/targets.go")
 
 	// name -> Go function, from setNativeCode(s, "name", fn, ...) anywhere in registerBuiltins
 	reg := b.Func("registerBuiltins")
@@ -49,6 +49,25 @@ func main() {
 			funcs[fd.Name.Name] = fd
 		}
 	}
+	// helpers of the same package that live in targets.go (asList, asDict, mustList, …)
+	tg := xlib.Parse("src/parse/asp/targets.go")
+	for _, d := range tg.AST.Decls {
+		if fd, ok := d.(*ast.FuncDecl); ok && fd.Recv == nil && funcs[fd.Name.Name] == nil {
+			funcs[fd.Name.Name] = fd
+		}
+	}
+	// type expressions are compared by name (the nodes may come from either file)
+	tyName := func(e ast.Expr) string {
+		if id, ok := e.(*ast.Ident); ok {
+			return id.Name
+		}
+		if se, ok := e.(*ast.StarExpr); ok {
+			if id, ok := se.X.(*ast.Ident); ok {
+				return "*" + id.Name
+			}
+		}
+		return b.Src(e)
+	}
 	// a helper "unwraps" when its own body (or a helper it calls, two levels deep) asserts or switches on
 	// pyFrozenList / pyFrozenDict - asStringList today, and pyStrOrListAsList through it
 	var mentionsFrozen func(name string, depth int) bool
@@ -62,13 +81,13 @@ func main() {
 			switch t := n.(type) {
 			case *ast.TypeAssertExpr:
 				if t.Type != nil {
-					if ty := b.Src(t.Type); ty == "pyFrozenList" || ty == "pyFrozenDict" {
+					if ty := tyName(t.Type); ty == "pyFrozenList" || ty == "pyFrozenDict" {
 						found = true
 					}
 				}
 			case *ast.CaseClause:
 				for _, e := range t.List {
-					if s := b.Src(e); s == "pyFrozenList" || s == "pyFrozenDict" {
+					if s := tyName(e); s == "pyFrozenList" || s == "pyFrozenDict" {
 						found = true
 					}
 				}
@@ -95,7 +114,7 @@ func main() {
 			switch t := n.(type) {
 			case *ast.TypeAssertExpr:
 				if t.Type != nil {
-					ty := b.Src(t.Type)
+					ty := tyName(t.Type)
 					if ty == "pyFrozenList" || ty == "pyFrozenDict" {
 						unwraps = true
 					} else {
@@ -104,7 +123,7 @@ func main() {
 				}
 			case *ast.CaseClause:
 				for _, e := range t.List {
-					if s := b.Src(e); s == "pyFrozenList" || s == "pyFrozenDict" {
+					if s := tyName(e); s == "pyFrozenList" || s == "pyFrozenDict" {
 						unwraps = true
 					}
 				}
@@ -169,5 +188,78 @@ func main() {
 		xlib.Unreadable("interpretOp: no case Equal")
 	}
 	out.Def("equalVia", "String", xlib.LeanStr(eq))
+
+	// ---- objects.go: pyList.Operator, case Add: is there a branch for a pyFrozenList operand?
+	o := xlib.Parse("src/parse/asp/objects.go")
+	listOp := o.Func("pyList.Operator")
+	addFrozen, sawAdd := false, false
+	ast.Inspect(listOp.Body, func(n ast.Node) bool {
+		cc, ok := n.(*ast.CaseClause)
+		if !ok || len(cc.List) != 1 || o.Src(cc.List[0]) != "Add" {
+			return true
+		}
+		sawAdd = true
+		for _, st := range cc.Body {
+			ast.Inspect(st, func(m ast.Node) bool {
+				if ta, ok := m.(*ast.TypeAssertExpr); ok && ta.Type != nil && o.Src(ta.Type) == "pyFrozenList" {
+					addFrozen = true
+				}
+				if tc, ok := m.(*ast.CaseClause); ok {
+					for _, t := range tc.List {
+						if o.Src(t) == "pyFrozenList" {
+							addFrozen = true
+						}
+					}
+				}
+				return true
+			})
+		}
+		return false
+	})
+	if !sawAdd {
+		xlib.Unreadable("pyList.Operator: no case Add")
+	}
+	out.Def("listAddAcceptsFrozen", "Bool", xlib.LeanBool(addFrozen))
+
+	// ---- type pyFrozenList struct { pyList }: embedding, and the methods the wrapper defines itself
+	embeds, sawType := false, false
+	for _, d := range o.AST.Decls {
+		gd, ok := d.(*ast.GenDecl)
+		if !ok {
+			continue
+		}
+		for _, sp := range gd.Specs {
+			ts, ok := sp.(*ast.TypeSpec)
+			if !ok || ts.Name.Name != "pyFrozenList" {
+				continue
+			}
+			sawType = true
+			if st, ok := ts.Type.(*ast.StructType); ok {
+				for _, f := range st.Fields.List {
+					if len(f.Names) == 0 && o.Src(f.Type) == "pyList" {
+						embeds = true
+					}
+				}
+			}
+		}
+	}
+	if !sawType {
+		xlib.Unreadable("type pyFrozenList not found in objects.go")
+	}
+	out.Def("frozenListEmbedsList", "Bool", xlib.LeanBool(embeds))
+	var own []string
+	for _, d := range o.AST.Decls {
+		if fd, ok := d.(*ast.FuncDecl); ok && fd.Recv != nil && len(fd.Recv.List) == 1 {
+			t := fd.Recv.List[0].Type
+			if se, ok := t.(*ast.StarExpr); ok {
+				t = se.X
+			}
+			if o.Src(t) == "pyFrozenList" {
+				own = append(own, fd.Name.Name)
+			}
+		}
+	}
+	sort.Strings(own)
+	out.Def("frozenListMethods", "List String", xlib.LeanStrList(own))
 	out.Write()
 }
